@@ -1,6 +1,7 @@
 import Iavl.Lemmas.Versions
 import Iavl.Lemmas.Refine
 import Iavl.Lemmas.PinsInv
+import Iavl.Generated.SrcC06Ok
 /-
   C06 — committed versions can be read concurrently with the writer (partial).
   What the model can carry: in the version machine a committed version's contents are a *value*
